@@ -6,7 +6,7 @@ import OccaProofs.Lemmas.GcDelete4
 namespace Occa.Gc
 
 /-- the members of `bufK` and their classes -/
-theorem bufK_cases {ex : Option Var} {s : St} {b x : Nat} (hi : Inv0 ex s) (ha : s.alive b = true)
+theorem bufK_cases {ex : Var → Prop} {s : St} {b x : Nat} (hi : Inv00 ex s) (ha : s.alive b = true)
     (hx : x ∈ bufK s b) :
     x = b ∨ (s.kind b = .pool ∧ s.inner b = some x ∧ s.kind x = .buf ∧ s.alive x = true ∧ s.kids x = [])
       ∨ (x ∈ s.kids b ∧ s.kind x = .mem ∧ s.alive x = true) := by
@@ -16,7 +16,7 @@ theorem bufK_cases {ex : Option Var} {s : St} {b x : Nat} (hi : Inv0 ex s) (ha :
     exact Or.inr (Or.inl ⟨h1, h2, q3, q2, q4⟩)
   · exact Or.inr (Or.inr ⟨h, (hi.kids_ok b x h).2.1, (hi.kids_ok b x h).1⟩)
 
-theorem bufK_nodup {ex : Option Var} {s : St} {b : Nat} (hi : Inv0 ex s) (ha : s.alive b = true)
+theorem bufK_nodup {ex : Var → Prop} {s : St} {b : Nat} (hi : Inv00 ex s) (ha : s.alive b = true)
     (hk : s.kind b = .buf ∨ s.kind b = .pool) : (bufK s b).Nodup := by
   have hbk : b ∉ s.kids b := by
     intro h
@@ -40,7 +40,7 @@ theorem bufK_nodup {ex : Option Var} {s : St} {b : Nat} (hi : Inv0 ex s) (ha : s
   · simp only [hp, if_false, List.append_nil, List.singleton_append, List.nodup_cons]
     exact ⟨hbk, hi.kids_nodup b⟩
 
-theorem bufK_closed {ex : Option Var} {s : St} {b : Nat} (hi : Inv0 ex s) (ha : s.alive b = true)
+theorem bufK_closed {ex : Var → Prop} {s : St} {b : Nat} (hi : Inv00 ex s) (ha : s.alive b = true)
     (hk : s.kind b = .buf ∨ s.kind b = .pool) (hni : ∀ p, s.alive p = true → s.inner p ≠ some b) :
     Closed s (bufK s b) := by
   have hcase := fun x hx => bufK_cases (x := x) hi ha hx
@@ -94,10 +94,11 @@ theorem bufK_closed {ex : Option Var} {s : St} {b : Nat} (hi : Inv0 ex s) (ha : 
       cases e1
       exact hb'K ((mem_bufK _ _ _).mpr (Or.inl rfl))
 
-theorem deleteBuf_purged {ex : Option Var} {s : St} {b : Nat} (hi : Inv0 ex s) (ha : s.alive b = true)
-    (hk : s.kind b = .buf ∨ s.kind b = .pool) :
+theorem deleteBuf_purged {ex : Var → Prop} {s : St} {b : Nat} (hi : Inv00 ex s) (ha : s.alive b = true)
+    (hk : s.kind b = .buf ∨ s.kind b = .pool) {d : Nat} (hp : s.par b = some d) (hda : s.alive d = true)
+    (hdk : s.kind d = .dev) :
     Purged (deleteBuf s b) (bufK s b) ∧ Emptied (deleteBuf s b) (bufK s b) := by
-  obtain ⟨d, hp, hkil, hk0, hnb⟩ := deleteBuf_core hi ha hk
+  obtain ⟨hkil, hk0, hnb⟩ := deleteBuf_core hi ha hk hp hda hdk
   have hcase := fun x hx => bufK_cases (x := x) hi ha hx
   have hkb : s.kind b ≠ .mem := by rcases hk with h | h <;> rw [h] <;> decide
   have hslot : slot (s.kind b) = .buf := by rcases hk with h | h <;> rw [h] <;> rfl
@@ -148,11 +149,14 @@ theorem deleteBuf_purged {ex : Option Var} {s : St} {b : Nat} (hi : Inv0 ex s) (
       · rw [h1] at hdk; cases hdk
 
 /-- deleting a buffer or pool (which is not the inner buffer of a pool) keeps the invariant -/
-theorem InvX.del_buf {ex : Option Var} {s : St} {b : Nat} (hi : InvX ex s) (ha : s.alive b = true)
+theorem InvX.del_buf {ex : Var → Prop} {s : St} {b : Nat} (hi : InvX ex s) (ha : s.alive b = true)
     (hk : s.kind b = .buf ∨ s.kind b = .pool) (hni : ∀ p, s.alive p = true → s.inner p ≠ some b) :
     InvX ex (deleteBuf s b) ∧ Killed s (bufK s b) (deleteBuf s b) := by
-  obtain ⟨d, hp, hkil, _, _⟩ := deleteBuf_core hi.toInv0 ha hk
-  obtain ⟨h1, h2⟩ := deleteBuf_purged hi.toInv0 ha hk
-  exact ⟨hi.killed hkil (bufK_closed hi.toInv0 ha hk hni) h1 h2, hkil⟩
+  have hkd : s.kind b ≠ .dev := by rcases hk with h | h <;> rw [h] <;> decide
+  have hkm : s.kind b ≠ .mem := by rcases hk with h | h <;> rw [h] <;> decide
+  obtain ⟨d, hp, hda, hdk, _⟩ := hi.ch_par b ha hkd hkm
+  obtain ⟨hkil, _, _⟩ := deleteBuf_core hi.toInv00 ha hk hp hda hdk
+  obtain ⟨h1, h2⟩ := deleteBuf_purged hi.toInv00 ha hk hp hda hdk
+  exact ⟨hi.killed hkil (bufK_closed hi.toInv00 ha hk hni) h1 h2, hkil⟩
 
 end Occa.Gc
